@@ -32,7 +32,6 @@ from dromedary.local import file_kind
 from dulwich.config import ConfigFile as GitConfigFile
 from dulwich.config import parse_submodules
 from dulwich.diff_tree import RenameDetector, tree_changes
-from dulwich.errors import NotTreeError
 from dulwich.index import (
     ConflictedIndexEntry,
     IndexEntry,
@@ -846,7 +845,8 @@ class GitRevisionTree(revisiontree.RevisionTree, GitTree):
                 continue
             obj = store[hexsha]
             if not isinstance(obj, Tree):
-                raise NotTreeError(hexsha)
+                # a path below something that is not a directory
+                raise NoSuchFile(path)
             try:
                 mode, hexsha = obj[p]
             except KeyError as err:
